@@ -4,7 +4,7 @@ from vx.rs import Fn, LostAnchor
 from .common import emit_struct, emit_error_enum, refpat_for, import_method, emit_free_fn, guarded
 
 NAME = 'u4_decode'
-PROPS = ['C06', 'C07', 'C05', 'C02']
+PROPS = ['C06', 'C07', 'C05', 'C02', 'C01']
 D = 'src/decoder.rs'
 T = 'src/types.rs'
 
